@@ -217,6 +217,12 @@ def to_model(element: model.ContentElement, is_teletext: bool, tti_cct: bytes, t
 
   context = _Context(element, is_teletext, decode_func)
 
+  # a run of space cells (spaces and spacing control codes) between two printable characters of a row
+  # is rendered as a single space; space cells at the beginning or at the end of a row are dropped
+
+  row_has_text = False
+  pending_space = False
+
   while True:
 
     c = tf_iter.cur()
@@ -225,10 +231,18 @@ def to_model(element: model.ContentElement, is_teletext: bool, tti_cct: bytes, t
       break
 
     if _is_character_code(c):
-      if _is_printable_code(c) or (_is_printable_code(tf_iter.peek_next()) and _is_printable_code(tf_iter.peek_prev())):
+      if _is_printable_code(c):
+        if pending_space:
+          context.append_character(0X20)
+          pending_space = False
         context.append_character(c)
+        row_has_text = True
+      elif row_has_text:
+        pending_space = True
 
     elif _is_newline_code(c):
+      row_has_text = False
+      pending_space = False
       if not _is_newline_code(tf_iter.peek_next()) and not _is_unused_space_code(tf_iter.peek_next()):
         context.end_span()
         element.push_child(model.Br(element.get_doc()))
@@ -269,8 +283,8 @@ def to_model(element: model.ContentElement, is_teletext: bool, tti_cct: bytes, t
       elif c == 0x83:
         context.set_underline(False)
 
-      if (_is_printable_code(tf_iter.peek_next()) and _is_printable_code(tf_iter.peek_prev())):
-        context.append_character(0X20)
+      if row_has_text:
+        pending_space = True
 
     next(tf_iter)
 
